@@ -1,6 +1,8 @@
 package dom
 
 import (
+	"os"
+	"github.com/jirenius/go-res/logger"
 	"bytes"
 	"encoding/json"
 	"errors"
@@ -230,7 +232,13 @@ func (reqDom) Gen(r *gen.R, tier string, emit func(string)) {
 		if r.Chance(1, 10) {
 			nact = 0
 		}
-		args := []string{"req", subj, pk, r.Pick([]string{"cid1", "c.x", "", "cid1", "c d", "cid2"}), wire.Bool(r.Bool()), params, token,
+		// the ownership lists the service is started with: everything, or overlapping lists in
+		// either order (a subject under several owned patterns is still subscribed once, C09)
+		opName := "req"
+		if r.Chance(1, 4) && (rname == "svc" || strings.HasPrefix(rname, "svc.")) && !strings.Contains(rname, "..") && !strings.HasSuffix(rname, ".") {
+			opName = r.Pick([]string{"req1", "req2", "req3"})
+		}
+		args := []string{opName, subj, pk, r.Pick([]string{"cid1", "c.x", "", "cid1", "c d", "cid2"}), wire.Bool(r.Bool()), params, token,
 			r.Pick([]string{"", "q=1&b=2"}), pat, kinds, pickSet([]string{"m", "*", "set"}), pickSet([]string{"m", "*"}),
 			strconv.Itoa(r.Intn(3)), apply, strconv.Itoa(r.Intn(3))}
 		for j := 0; j < nact; j++ {
@@ -440,8 +448,17 @@ func seenDesc(kind string, r *res.Request) string {
 
 func (reqDom) Exec(a []string) string {
 	return Safe(func() string {
-		if len(a) < 15 || a[0] != "req" {
+		if len(a) < 15 || !strings.HasPrefix(a[0], "req") {
 			return "bad-op"
+		}
+		owned := []string{">"}
+		switch a[0] {
+		case "req1":
+			owned = []string{"svc", "svc.>", "svc.a.>"}
+		case "req2":
+			owned = []string{"svc.a.>", "svc", "svc.>"}
+		case "req3":
+			owned = []string{"svc.>", "svc", "svc.a.b.c", "svc.*"}
 		}
 		subj, pk, cid, http, params, token, query := a[1], a[2], a[3], a[4] == "T", a[5], a[6], a[7]
 		pat, kinds, call, auth, typ, apply, nls := a[8], a[9], a[10], a[11], a[12], a[13], a[14]
@@ -550,6 +567,9 @@ func (reqDom) Exec(a []string) string {
 		}
 		s := res.NewService("svc")
 		s.SetLogger(svc.NopLogger{})
+		if os.Getenv("VERIF_DEBUG") != "" {
+			s.SetLogger(logger.NewStdLogger().SetTrace(true))
+		}
 		s.SetWorkerCount(2)
 		s.Handle(pat, opts...)
 		n, _ := strconv.Atoi(nls)
@@ -558,7 +578,7 @@ func (reqDom) Exec(a []string) string {
 			s.AddListener(pat, func(ev *res.Event) { log.add(fmt.Sprintf("L@%d@%s", i, wire.Enc(ev.Name))) })
 		}
 		s.Handle("zz.sentinel", res.Call("ping", func(r res.CallRequest) { r.OK(nil) }))
-		s.SetOwnedResources([]string{">"}, []string{">"})
+		s.SetOwnedResources(owned, owned)
 		run, err := svc.Start(s)
 		if err != nil {
 			return "start-failed"
